@@ -47,6 +47,9 @@ def check(ctx):
     c14.rule_affine(ctx, ctx.facts, "G13")
     c14.rule_integers(ctx, ctx.facts, "G13")
     c14.rule_glam(ctx, ctx.facts, "G13")
+    # ... and ends when its own duration() says so: the end test of the time scale agrees with the reported total duration
+    # (C03/R4)
+    c03.rule_duration_formula(ctx, "G14", TT.build(ctx))
     ctx.extra["programs"] = n
     ctx.extra["disagreements_checked"] = n
     ctx.extra["tv_samples"] = [{"shape": s.label, "animated": s.animated, "target": s.target} for s in shapes[:8]]
